@@ -36,7 +36,7 @@ pub fn configs(tier: Tier, judge: u32, liveness: bool) -> Vec<OutCfg> {
             let mut kinds = vec![SK::Q1, SK::Q1Loop(2), SK::Q2Rel];
             if role == Role::Client {
                 kinds.push(SK::Sub);
-                if tier == Tier::Thorough && cap == 1 {
+                if cap == 1 {
                     kinds.push(SK::Unsub);
                 }
             }
@@ -119,6 +119,23 @@ pub fn configs(tier: Tier, judge: u32, liveness: bool) -> Vec<OutCfg> {
                     may_close: false,
                 });
             }
+        }
+        // acknowledgements batched in one read while two senders are parked behind a window of two
+        for senders in [vec![SK::Q1; 4], vec![SK::Q1, SK::Q2Rel, SK::Q1, SK::Ready]] {
+            v.push(OutCfg {
+                ep: ep_for(EpCfg::new(ver, role), 2, false),
+                cap: 2,
+                senders,
+                cancels: 0,
+                batch: true,
+                bp: 0,
+                peer: PeerMode::Correct,
+                judge,
+                prologue: 0,
+                peer_max_packet: 0,
+                inbound: 0,
+                may_close: false,
+            });
         }
         // streamed QoS 1 publishes occupy a window slot like any other publish
         for (cap, senders) in [(1u16, vec![SK::Stream { qos: 1, size: 6, plan: 1 }, SK::Q1]), (1, vec![SK::Q1, SK::Stream { qos: 1, size: 6, plan: 1 }, SK::Q1]), (2, vec![SK::Stream { qos: 1, size: 6, plan: 1 }, SK::Q1, SK::Q1Loop(2)])] {
